@@ -35,6 +35,7 @@ RULE = (
     "state = canonical simulator state per period of the base run; non-trivial = base scenario with >=2 sessions in which some constraint-limited or level-limited pilot occurs (pilot < EVSE max while charging)"
 )
 ASSUMPTIONS = [
+    "the hash-seed differential also runs twelve scenarios with exactly tied priority keys: the order among ties is open, its independence of the interpreter process is demanded",
     "five block: five sessions with distinct arrivals on an unconstrained six-station network, all 120 listing orders; estimator block: a default-constructed rate estimator after another simulation of the same process with the same session ids vs one whose bound table was explicitly emptied",
     "reuse block: back-to-back reuse of a station with a third event in the same period, all session listing orders",
     "N11: duplicated constraint rows with different limits and a pod too tight for all minimum rates (uninterrupted charging)",
@@ -359,14 +360,26 @@ def replay(scn):
 # ---- hash-seed differential --------------------------------------------------
 def digest(tier, n):
     h = hashlib.sha256()
-    for i, base in enumerate(space(tier, 0)):
-        if i >= n:
+    for i, base in enumerate(list(tie_scenarios()) + space(tier, 0)):
+        if i >= n + 12:
             break
         for var in ({}, {"order": list(S.NETS[base["net"]]["stations"])[::-1]}):
             tr = S.run_sim(variant_scn(base, **var))
             o = outputs(tr)
             h.update(repr((sorted((k, v.tolist()) for k, v in o["pilots"].items()), sorted((k, v.tolist()) for k, v in o["rates"].items()), sorted(o["energy"].items()), o["events"], o["iteration"], o["peak"], o["error"])).encode())
     return h.hexdigest()
+
+
+def tie_scenarios():
+    """sessions that tie EXACTLY in every priority key (same arrival, departure, request) on the all-finite network, whose
+    constraints bind: which of them is served first is open, but equal inputs must give equal outputs in every interpreter
+    process (a tie broken by anything that depends on the process - string hashes, object addresses - is not deterministic)"""
+    for sk in ("fcfs", "edf-rr", "llf", "lrpt-rr"):
+        for sts in (("PS-A", "PS-B", "PS-C"), ("PS-C", "PS-A"), ("PS-B", "PS-C")):
+            ss = [dict(sess(st, 0, 4, "big", 0), sid="sess-%s-%d" % (st[-1], j)) for j, st in enumerate(sts)]
+            for s_ in ss:
+                s_["ed"] = s_["d"]
+            yield {"net": "N6", "sessions": ss, "sk": sk}
 
 
 def hashseed_check(tier, n):
